@@ -211,7 +211,7 @@ Teardown ==
 
 Return ==
   /\ pc = "return" /\ pingPc \in {"off", "stopped"}       \* join: the ping thread is gone
-  /\ Emit(<<[ev |-> "run_ret", t |-> now, value |-> hasErrored, run |-> 0],
+  /\ Emit(<<[ev |-> "run_ret", t |-> now, value |-> hasErrored, run |-> 0, live |-> <<>>],      \* (joined above: no ping thread is left)
             [ev |-> "quiesce", t |-> now, open |-> IF sockOpen THEN 1 ELSE 0, live |-> <<>>, sock_none |-> ~sockOpen,
              deadlock |-> FALSE, overrun |-> FALSE]>>)
   /\ pc' = "done"
